@@ -172,7 +172,27 @@ def fam_futex(rng):
     return lines
 
 
-FAMILIES = {"once": fam_once, "futex": fam_futex,"core": fam_core, "cv": fam_cv, "cv_raw": fam_cv_raw, "muwait": fam_muwait, "debug": fam_debug,
+def fam_ctr(rng):
+    """A counter decremented to zero by several threads while others wait for it (with and without
+    deadlines) or poll its value; every adder writes its own variable before adding (the waiter's
+    continuation must see it: C03) — no increments after a wait (API contract)."""
+    nadd = rng.choice([1, 2, 2, 3])
+    per = [rng.choice([1, 1, 2]) for _ in range(nadd)]
+    total = sum(per)
+    lines = ["sem %s" % rng.choice(["counting", "binary"]), "objs mu=1 var=%d" % (nadd + 1), "pre ctr_new k0 %d" % total]
+    for i in range(nadd):
+        ops = ["yield"] * rng.randrange(0, 3) + ["wr x%d 1" % i] + ["ctr_add k0 -1"] * per[i]
+        lines.append("fiber " + " ; ".join(ops))
+    for _ in range(rng.choice([1, 1, 2])):
+        dl = rng.choice(["inf", "inf", "p1000", "p90000", "m5", "z"])
+        ops = ["ctr_wait k0 %s" % dl, "ctr_value k0"]
+        lines.append("fiber " + " ; ".join(ops))
+    if rng.random() < 0.4:
+        lines.append("fiber ctr_value k0 ; yield ; ctr_add k0 0 ; ctr_value k0")
+    return lines
+
+
+FAMILIES = {"ctr": fam_ctr, "once": fam_once, "futex": fam_futex,"core": fam_core, "cv": fam_cv, "cv_raw": fam_cv_raw, "muwait": fam_muwait, "debug": fam_debug,
             "waitn_cv": fam_waitn_cv, "mixed": fam_mixed}
 
 
